@@ -174,6 +174,9 @@ func playerList(c *vm.Ctx, r *vm.Rand, capacity, J, rounds, hold int) {
 		return
 	}
 	c.Cover("playerlist.ok")
+	if capacity == 0 && finalLen == 0 && atomic.LoadInt64(&netJoined) == 0 {
+		c.Cover("playerlist.capacity-0-admits-nobody")
+	}
 	if gateCalls > 0 {
 		c.Cover("playerlist.check-player-next-to-joins")
 		if gateAdmits > 0 && gateRefusals > 0 {
